@@ -211,6 +211,24 @@ func (p *Program) poolSites(method string) []poolSite {
 	return out
 }
 
+// commaOKAssert: every type assertion applied to the Get result is of the comma-ok form.
+func commaOKAssert(get ssa.CallInstruction) bool {
+	v, ok := get.(ssa.Value)
+	if !ok || v.Referrers() == nil {
+		return false
+	}
+	n := 0
+	for _, ref := range *v.Referrers() {
+		if ta, ok := ref.(*ssa.TypeAssert); ok {
+			n++
+			if !ta.CommaOk {
+				return false
+			}
+		}
+	}
+	return n > 0
+}
+
 // gotValueRaw returns the typed value obtained from a Get call (through the type assertion) and the asserted type.
 func gotValueRaw(get ssa.CallInstruction) (ssa.Value, types.Type) {
 	v, ok := get.(ssa.Value)
@@ -248,6 +266,12 @@ func rulePoolType(r *Run) {
 		key := fmt.Sprintf("%s/Get:%s#%d", shortFunc(g.fn), g.pool, n[g.pool])
 		if t == nil {
 			r.undecided(key, g.call.Pos(), "the value taken from the pool is not type-asserted")
+			continue
+		}
+		// asserting to an interface in the comma-ok form is safe by construction: whatever was put either
+		// satisfies the interface or counts as an empty pool
+		if _, isIface := t.Underlying().(*types.Interface); isIface && commaOKAssert(g.raw) {
+			r.ok(key, g.call.Pos(), "the pooled value is asserted to the interface %s in the comma-ok form: a value of another type is treated as an empty pool", typeString(t))
 			continue
 		}
 		// pools reached through a *sync.Pool field (z.pool) are resolved by type: every Put of that type's holder
